@@ -62,14 +62,11 @@ type caseRun struct {
 	gcSleep bool
 	// shadow of the NEO cache's votesChanged flag on A (from the NEO events of HALTed transactions and successful
 	// block/unblock): only feeds the distribution counters "epoch ends with / without committee recomputation"
-	vcA bool
-	// shadow of the cached whitelisted fees on A and B (an entry that exists is never updated by
-	// setWhitelistFeeContract, policy.go:966-969; InitializeCache reloads it from storage)
-	wlStore, wlA, wlB map[string]int64
-	failed            bool
-	digest            hash.Hash // of everything replica A showed, block by block
-	gov               bool      // governance-focused profile: elected committee, quiet epochs, block/unblock of candidates
-	lastCmt           string
+	vcA     bool
+	failed  bool
+	digest  hash.Hash // of everything replica A showed, block by block
+	gov     bool      // governance-focused profile: elected committee, quiet epochs, block/unblock of candidates
+	lastCmt string
 }
 
 // childMode: this process only re-runs one case for its parent (second-process replay) and leaves the
@@ -288,6 +285,17 @@ func (c *caseRun) run() {
 				}
 			}
 		}
+		// a payer that cannot afford the transaction makes no transaction
+		kept := ops[:0]
+		for _, p := range ops {
+			if p != nil && p.tx != nil {
+				kept = append(kept, p)
+			} else {
+				o.Count("op-dropped:payer-cannot-afford")
+			}
+		}
+		ops = kept
+		w.spent = nil
 		rec.ops = ops
 		txs := make([]*transaction.Transaction, len(ops))
 		for i, p := range ops {
@@ -399,7 +407,6 @@ func (c *caseRun) run() {
 			if neoVotesEvent(&aers[0]) {
 				c.vcA = true
 			}
-			c.noteWhitelist(p)
 			if (p.kind == "policy.block" || p.kind == "policy.unblock") && p.result == "halt true" {
 				c.vcA = true // markCommitteeOutdated (fix d4da6a2)
 				if p.blkCand {
@@ -414,6 +421,7 @@ func (c *caseRun) run() {
 				o.Count("A.epoch-end-no-recompute")
 			}
 		}
+		c.afterOp(nil, nil) // resync the contract slots even if the block had no transaction
 		c.recs = append(c.recs, rec)
 		sig = append(sig, opKinds(ops))
 
@@ -495,53 +503,6 @@ func (c *caseRun) run() {
 
 // noteRestart: B is restarted before block h (at height h-1): its caches are rebuilt from storage.
 func (c *caseRun) noteRestart(h uint32) {
-	c.wlB = map[string]int64{}
-	for k, v := range c.wlStore {
-		c.wlB[k] = v
-	}
-}
-
-// noteWhitelist keeps the shadow of the whitelisted-fee caches up to date.
-func (c *caseRun) noteWhitelist(p *op) {
-	if c.wlStore == nil {
-		c.wlStore, c.wlA, c.wlB = map[string]int64{}, map[string]int64{}, map[string]int64{}
-	}
-	switch {
-	case p.wlKey != "" && p.result == "halt":
-		if p.wlDel {
-			delete(c.wlStore, p.wlKey)
-			delete(c.wlA, p.wlKey)
-			delete(c.wlB, p.wlKey)
-			return
-		}
-		c.wlStore[p.wlKey] = p.wlFee
-		for _, m := range []map[string]int64{c.wlA, c.wlB} {
-			if _, ok := m[p.wlKey]; !ok {
-				m[p.wlKey] = p.wlFee
-			}
-		}
-	case p.kind == "kv.destroy" && p.result == "halt":
-		f := strings.Fields(p.line)
-		tok := f[len(f)-1] + " "
-		for _, m := range []map[string]int64{c.wlStore, c.wlA, c.wlB} {
-			for k := range m {
-				if strings.HasPrefix(k, tok) {
-					delete(m, k)
-				}
-			}
-		}
-	}
-}
-
-// whitelistCachesDiffer: the shape of the finding "setWhitelistFeeContract does not update an existing cache
-// entry": the two replicas' cached fee of some method differ (B reloaded it from storage at a restart).
-func (c *caseRun) whitelistCachesDiffer() bool {
-	for k, v := range c.wlA {
-		if vb, ok := c.wlB[k]; ok && vb != v {
-			return true
-		}
-	}
-	return false
 }
 
 // neoVotesEvent: did the transaction emit a NEO event that goes with votesChanged=true?
@@ -659,9 +620,7 @@ func (c *caseRun) diverged(h uint32, name, va, vb string) {
 	c.failed = true
 	cls := classOf(name)
 	key := ""
-	if c.whitelistCachesDiffer() {
-		key = "policy-whitelist-fee-update-restart"
-	} else {
+	{
 		// generic shape: first diverging class, whether B restarted in the last two epochs, and the kinds of
 		// operations in that window
 		from := uint32(0)
@@ -807,9 +766,9 @@ func (c *caseRun) genOp() *op {
 	w, r := c.w, c.r
 	nk := w.nkeys
 	reg := w.registeredKeys()
-	weights := []int{14, 4, 14, 8, 3, 6, 8, 4, 3, 5, 3, 8, 2, 1, 3, 1, 6, 1}
+	weights := []int{14, 4, 14, 8, 3, 6, 8, 4, 3, 10, 3, 8, 2, 1, 3, 1, 6, 1}
 	if c.gov {
-		weights = []int{3, 2, 5, 3, 2, 5, 16, 9, 1, 2, 1, 3, 1, 1, 1, 1, 1, 1}
+		weights = []int{3, 2, 5, 3, 2, 5, 16, 9, 1, 4, 1, 3, 1, 1, 1, 1, 1, 1}
 	}
 	switch r.Weighted(weights) {
 	case 0: // NEO transfer (incl. self / zero / too much / wrong signer)
